@@ -3,7 +3,8 @@
    them, and the rows agree with what the model assumes about every opcode the
    compiled actions use. *)
 From VF.C16 Require Import Model ProofsState ProofsEvm.
-From VF.gen Require Import C16Table.
+From VF.gen Require Import C16Table C16Aliasing.
+From Coq Require Import String.
 Local Open Scope N_scope.
 
 Definition row (ops : list oprow) (c : N) : oprow :=
@@ -14,7 +15,7 @@ Definition writing : list N := [0x55; 0xa0; 0xa1; 0xa2; 0xa3; 0xa4; 0xf0; 0xf5; 
 Definition pushes : list N := map N.of_nat (List.seq 96%nat 32%nat).
 
 Definition rows_ok (ops : list oprow) (G : gastab) : bool :=
-  N.eqb (N.of_nat (length ops)) 256
+  N.eqb (N.of_nat (List.length ops)) 256
   && forallb (fun c => N.eqb (o_code (row ops c)) c) (map N.of_nat (List.seq 0%nat 256%nat))
   (* writes = true exactly on the state-touching opcodes (CALL with value is tested separately by the interpreter) *)
   && forallb (fun r => negb (o_valid r) || Bool.eqb (o_writes r) (existsb (N.eqb (o_code r)) writing)) ops
@@ -52,4 +53,49 @@ Lemma real_table_ok : table_ok real_gas = true.
 Proof. vm_compute. reflexivity. Qed.
 
 Lemma real_rows_ok : rows_ok real_ops real_gas = true.
+Proof. vm_compute. reflexivity. Qed.
+
+(* ---- journal-shared big.Int values -------------------------------------------------------
+   core/state hands one *big.Int to several owners (CreateAccount gives the balance of the
+   replaced object to the new one; the journal keeps the replaced object and previous
+   values), which is sound only while a stored big.Int is replaced, never modified in
+   place.  The model relies on it (a journal entry restores exactly what it recorded).
+   gen/C16Aliasing.v lists every mutating big.Int method call on a stored field in
+   core/state and core/vm; the list is pinned here: the calls known today all concern
+   validator / staking records (not C16's subject), none touches an account balance, and
+   anything new breaks this obligation. *)
+Local Open Scope string_scope.
+Definition allowed_inplace : list (string * string * string) := [
+ ("core/state/statedb_staking.go", "*StateDB.AddStakingRecord", "sr.record.FinalValue.Set");
+ ("core/state/statedb_staking.go", "*StateDB.UpdateDelegation", "dfrom.Stake.Set");
+ ("core/state/statedb_staking.go", "*StateDB.UpdateDelegation", "dfrom.Token.Add");
+ ("core/state/statedb_staking.go", "*StateDB.UpdateDelegation", "newVal.Stake.Add");
+ ("core/state/statedb_staking.go", "*StateDB.UpdateDelegation", "newVal.Token.Add");
+ ("core/state/validator.go", "*ValKindStat.AddRewards", "v.rewardsDistributable.Add");
+ ("core/state/validator.go", "*ValKindStat.ResetRewards", "v.rewardsDistributable.Set");
+ ("core/state/validator.go", "*ValKindStat.SetRewardsResidue", "v.rewardsResidue.Set");
+ ("core/state/validator.go", "*ValKindStat.addOfflineStake", "v.offlineStake.Add");
+ ("core/state/validator.go", "*ValKindStat.addOfflineToken", "v.offlineToken.Add");
+ ("core/state/validator.go", "*ValKindStat.addStake", "v.onlineStake.Add");
+ ("core/state/validator.go", "*ValKindStat.addToken", "v.onlineToken.Add");
+ ("core/state/validator.go", "*ValKindStat.subOfflineStake", "v.offlineStake.Sub");
+ ("core/state/validator.go", "*ValKindStat.subOfflineToken", "v.offlineToken.Sub");
+ ("core/state/validator.go", "*ValKindStat.subStake", "v.onlineStake.Sub");
+ ("core/state/validator.go", "*ValKindStat.subToken", "v.onlineToken.Sub");
+ ("core/state/validator.go", "*Validator.AddTotalRewards", "v.RewardsDistributable.Add");
+ ("core/state/validator.go", "*Validator.AddTotalRewards", "v.RewardsTotal.Add");
+ ("core/state/validator.go", "*Validator.PartialCopy", "newVal.RewardsDistributable.Set");
+ ("core/state/validator.go", "*Validator.PartialCopy", "newVal.RewardsTotal.Set");
+ ("core/state/validator.go", "*Validator.PartialCopy", "newVal.Stake.Set");
+ ("core/state/validator.go", "*Validator.PartialCopy", "newVal.Token.Set")].
+
+Definition triple_eqb (a b : string * string * string) : bool :=
+  let '(a1, a2, a3) := a in let '(b1, b2, b3) := b in String.eqb a1 b1 && String.eqb a2 b2 && String.eqb a3 b3.
+Definition mentions (needle hay : string) : bool := match index 0 needle hay with Some _ => true | None => false end.
+
+Definition inplace_ok (l : list (string * string * string)) : bool :=
+  forallb (fun e => existsb (triple_eqb e) allowed_inplace) l
+  && forallb (fun e => negb (mentions "Balance" (snd e))) l.
+
+Lemma real_inplace_writes_pinned : inplace_ok inplace_writes = true.
 Proof. vm_compute. reflexivity. Qed.
